@@ -584,17 +584,88 @@ func runT4(p *an.Prog, r *an.Result) {
 			switch {
 			case isNamedIn(owner, "parser", "ASTTrim"):
 				r.Counts["trim node sites"]++
-				dir, isC := an.ConstInt(st.Val)
-				// the arm's token type
-				var arm int64 = -1
-				for _, g := range an.GuardsAtInstr(st) {
-					if b, ok := g.Cond.(*ssa.BinOp); ok && b.Op == token.EQL && g.True {
-						if c, ok := an.ConstInt(b.Y); ok && strings.HasSuffix(describe(p, b.X), ".Type") {
-							arm = c
+				// every way the direction can arrive: a constant over an edge (or at the store itself) on
+				// which the token type can only be the matching trim type
+				isKindEq := func(cond ssa.Value) (int64, bool) {
+					b, ok := cond.(*ssa.BinOp)
+					if !ok || b.Op != token.EQL {
+						return 0, false
+					}
+					for _, pair := range [][2]ssa.Value{{b.X, b.Y}, {b.Y, b.X}} {
+						if c, ok := an.ConstInt(pair[1]); ok && isNamedIn(pair[1].Type(), "parser", "TokenType") {
+							if _, isConst := pair[0].(*ssa.Const); !isConst {
+								return c, true
+							}
 						}
 					}
+					return 0, false
 				}
-				good := an.FuncName(fn) == "(parser.Config).parseTokens" && isC && ((dir == left && arm == tl) || (dir == right && arm == tr))
+				// onlyKind: at the end of block b, taking the edge to succ (nil: at the block itself), the token type is k
+				onlyKind := func(b, succ *ssa.BasicBlock, k int64) bool {
+					other := tl
+					if k == tl {
+						other = tr
+					}
+					is := func(cond ssa.Value, taken bool) bool {
+						c, ok := isKindEq(cond)
+						return ok && c == k && taken
+					}
+					oneOfTrim := func(cond ssa.Value, taken bool) bool {
+						c, ok := isKindEq(cond)
+						return ok && taken && (c == tl || c == tr)
+					}
+					notOther := func(cond ssa.Value, taken bool) bool {
+						c, ok := isKindEq(cond)
+						return ok && c == other && !taken
+					}
+					edge := func(pred func(ssa.Value, bool) bool) bool {
+						if succ == nil {
+							return false
+						}
+						if ifi, ok := b.Instrs[len(b.Instrs)-1].(*ssa.If); ok && len(b.Succs) == 2 {
+							for i, sb := range b.Succs {
+								if sb == succ && pred(ifi.Cond, i == 0) {
+									return true
+								}
+							}
+						}
+						return false
+					}
+					if an.AllPathsGuarded(b, is) || edge(is) {
+						return true
+					}
+					return (an.AllPathsGuarded(b, oneOfTrim) || edge(oneOfTrim)) && (an.AllPathsGuarded(b, notOther) || edge(notOther))
+				}
+				good := strings.HasSuffix(an.FuncName(an.Outermost(fn)), "parseTokens")
+				var visit func(v ssa.Value, b, succ *ssa.BasicBlock, depth int)
+				visit = func(v ssa.Value, b, succ *ssa.BasicBlock, depth int) {
+					if depth > 4 {
+						good = false
+						return
+					}
+					if ph, ok := v.(*ssa.Phi); ok {
+						for i, e := range ph.Edges {
+							visit(e, ph.Block().Preds[i], ph.Block(), depth+1)
+						}
+						return
+					}
+					dir, isC := an.ConstInt(v)
+					switch {
+					case !isC:
+						good = false
+					case dir == left:
+						if !onlyKind(b, succ, tl) {
+							good = false
+						}
+					case dir == right:
+						if !onlyKind(b, succ, tr) {
+							good = false
+						}
+					default:
+						good = false
+					}
+				}
+				visit(st.Val, st.Block(), nil, 0)
 				if good {
 					r.OK(an.FuncName(fn), "ASTTrim direction matches the trim token type", st.Pos(), "")
 				} else {
@@ -665,7 +736,7 @@ func runT4(p *an.Prog, r *an.Result) {
 		})
 	}
 	r.Floor("trim token sites", 2)
-	r.Floor("trim node sites", 3)
+	r.Floor("trim node sites", 2)
 	r.Floor("trim calls", 2)
 	r.Floor("trim flag writes", 2)
 }
